@@ -67,6 +67,7 @@ type FuncContract struct {
 	Assumes  []Clause
 	Tokens   map[string]int // monitor counter -> contributions owned by the calling thread at entry
 	Frozen   []Expr         // locations assumed immutable while the function runs
+	UsesLemmas []string     // lemmas this function's proof relies on (assumed here, proved separately)
 	Line     int
 	File     string
 	// resolved
@@ -116,6 +117,7 @@ var directiveKW = map[string]bool{
 	"prop": true, "trusted": true, "pure": true, "end": true, "abstract": true,
 	"audit": true, "transitions": true, "init-store": true,
 	"monitor": true, "cond": true, "protects": true, "invariant": true, "holds": true, "init": true, "counter": true, "token": true, "frozen": true,
+	"uses": true,
 }
 
 // ParseSpecFile extracts directives from the comments of a parsed Go file.
@@ -381,6 +383,10 @@ func ParseSpecFile(fset *token.FileSet, f *ast.File) (*SpecFile, error) {
 				}
 			case "pure":
 				cur.Pure = true
+			case "uses":
+				// uses lemma1, lemma2: lemmas (proved on their own, possibly in the other arithmetic mode) that
+				// this function's proof may rely on
+				cur.UsesLemmas = append(cur.UsesLemmas, splitTop(rest)...)
 			case "frozen":
 				// frozen e1, e2: the named locations never change while the function runs (configuration that is
 				// immutable after construction); they keep their value across every havoc. Listed as an assumption.
